@@ -720,7 +720,7 @@ var HostileKinds = []string{"wrong-stream", "request-opcode-as-response", "short
 	"huge-length-then-silence", "unprepared-for-cached-id", "unknown-result-kind", "garbage-event", "direction-bit-missing",
 	"truncated-rows", "error-with-bad-code", "zero-length-result",
 	"negative-stream-ready", "negative-stream-result", "min-stream-error", "max-stream-result", "unsolicited-ready-then-answer",
-	"flagged-short-body", "result-of-another-kind"}
+	"flagged-short-body", "result-of-another-kind", "result-with-hostile-counts"}
 
 // hostile answers a request the way no healthy Cassandra node would (C17).
 func (c *BackendConn) hostile(kind int, stream int16, att *Attempt, tok string) {
@@ -768,6 +768,43 @@ func (c *BackendConn) hostile(kind int, stream int16, att *Attempt, tok string) 
 			m = &message.SchemaChangeResult{ChangeType: primitive.SchemaChangeTypeCreated, Target: primitive.SchemaChangeTargetKeyspace, Keyspace: "ks_hostile"}
 		}
 		c.Link.PeerWrite(encodeFrame(c.Compression, frame.NewFrame(c.Version, stream, m)))
+	case "result-with-hostile-counts":
+		// a RESULT (or ERROR) whose body announces a negative or large count where the proxy, if it
+		// decodes the message at all, allocates by it (never near 2^31: see C17 in DESIGN.md)
+		cnt := []uint32{0xffffffff, 0x80000000, 0x00100000, 0xfffffffe}[variant%4]
+		var body []byte
+		i32 := func(v uint32) { body = append(body, byte(v>>24), byte(v>>16), byte(v>>8), byte(v)) }
+		op := byte(0x08)
+		switch (variant / 4) % 4 {
+		case 0: // Rows: column count
+			i32(2)
+			i32(0)
+			i32(cnt)
+		case 1: // Rows: one column, rows count
+			i32(2)
+			i32(1)
+			i32(1)
+			body = append(body, 0, 2, 'k', 's', 0, 1, 't', 0, 1, 'c', 0, 13)
+			i32(cnt)
+		case 2: // Prepared: variables column count
+			i32(4)
+			body = append(body, 0, 2, 'i', 'd')
+			if c.Version.SupportsResultMetadataId() {
+				body = append(body, 0, 2, 'r', 'm')
+			}
+			i32(0)
+			i32(cnt)
+			i32(0)
+		case 3: // ERROR write failure with a hostile reason count
+			op = 0x00
+			i32(0x1500)
+			body = append(body, 0, 1, 'x', 0, 1)
+			i32(1)
+			i32(1)
+			i32(cnt)
+			body = append(body, 0, 6, 'S', 'I', 'M', 'P', 'L', 'E')
+		}
+		c.Link.PeerWrite(append(hdr(stream, op, len(body)), body...))
 	case "unknown-result-kind":
 		c.Link.PeerWrite(append(hdr(stream, 0x08, 4), 0, 0, 0, 0x99))
 	case "garbage-event":
